@@ -19,7 +19,7 @@ Anchors: {', '.join(p['anchors']['files'])}.
 Your task: produce TWO different, realistic code changes (call them A and B) to the ogen source (the library / generator / templates / runtime packages, NOT tests, NOT checked-in generated example code) such that each one:
  1. BREAKS the property above (for freshly generated code where the property is about generated code);
  2. still compiles (`go build ./...`) and still passes the existing test suite (`go test -vet=off -count=1 ./...` — note: the test TestGenerate/Examples/k8s in the root package fails already at HEAD because a data file was emptied; ignore that one failure, everything else must pass);
- 3. is subtle: it needs something specific to manifest (a particular shape of input, boundary, combination, character, count, ordering) — not something that breaks every input. It should look like a plausible refactoring mistake, lost case, swapped condition, off-by-one, over-eager optimisation etc. A and B should be in different files/mechanisms, and BOTH must be different from these changes that were already tried in earlier rounds (do not reuse these mechanisms or near variants of them):
+ 3. is subtle: it needs something specific to manifest (a particular shape of input, boundary, combination, character, count, ordering) — not something that breaks every input. It should look like a plausible refactoring mistake, lost case, swapped condition, off-by-one, over-eager optimisation etc.; especially welcome are changes that need a multi-step sequence, a fault at a particular point, a particular interleaving, or TWO cooperating sites that each look fine alone. A and B should be in different files/mechanisms, and BOTH must be different from these changes that were already tried in earlier rounds (do not reuse these mechanisms or near variants of them):
 {chr(10).join('   - '+u for u in used)}
    Prefer places of the anchored code that those did not touch.
  4. comes with a demonstration: a small self-contained Go test or program (placed under _out/<A|B>/demo/, with a README and a run.sh — use bash — that copies what it needs into the worktree, generates code from a small OpenAPI document with `go run ./cmd/ogen --target <dir> --package api --clean spec.json` when generated code is involved, runs, and cleans up) that passes at HEAD and fails with the change applied.
